@@ -76,15 +76,38 @@ class SimpleBatchSpy:
             spy.calls.append(rec)
             return out
 
+        real_ra = sel.rand_argmax
+        self.ra_calls = []
+
+        def ra_wrapper(a, random_state=None, **kw):
+            rec = dict(a=np.array(a, dtype=float).copy(), kw=dict(kw))
+            if isinstance(random_state, np.random.RandomState):
+                clone = SpyRS(0)
+                clone.set_state(random_state.get_state())
+                try:
+                    out = real_ra(a, clone, **kw)
+                finally:
+                    random_state.set_state(clone.get_state())
+                rec["noise"] = [x[1] for x in clone.log if x[0] == "random"]
+            else:
+                out = real_ra(a, random_state, **kw)
+                rec["noise"] = None
+            rec["out"] = np.array(out).copy()
+            spy.ra_calls.append(rec)
+            return out
+
         for mod in pool_modules():
             if hasattr(mod, "simple_batch"):
-                self._saved.append((mod, mod.simple_batch))
+                self._saved.append((mod, "simple_batch", mod.simple_batch))
                 mod.simple_batch = wrapper
+            if hasattr(mod, "rand_argmax"):
+                self._saved.append((mod, "rand_argmax", mod.rand_argmax))
+                mod.rand_argmax = ra_wrapper
         return self
 
     def __exit__(self, *a):
-        for mod, f in self._saved:
-            mod.simple_batch = f
+        for mod, name, f in self._saved:
+            setattr(mod, name, f)
         return False
 
 
@@ -137,6 +160,7 @@ def run_query(spec, data, candidates, b, seed, timeout=30):
         except Exception as e:
             res["err"] = f"{type(e).__name__}: {str(e)[:100]}"
     res["calls"] = spy.calls
+    res["ra_calls"] = spy.ra_calls
     res["qs"] = qs
     return res
 
@@ -308,6 +332,63 @@ def eval_case(ctx, prop, spec, case, data, cand, cs, ncols, lines, checks):
                     + " | full " + " ".join(f2bits(x) for x in full))
             checks.append(("skeletonA", case, impl))
             ctx.count("skeletonA_correspondence")
+    elif spec.name in SEQ_MASKED and not p1 and not shape_problem:
+        seq_correspondence(ctx, spec, case, r, q, cs, ncols, lines, checks)
+
+
+# strategies whose batch loop is "mask the earlier picks with NaN, then rand_argmax" (measured on the
+# unchanged tree; TypiClust interleaves a second rand_argmax over clusters and RegressionTreeBasedAL
+# [representativity] selects per cluster and masks afterwards, so the generic loop model does not apply to them)
+SEQ_MASKED = {"FourDs", "DiscriminativeAL", "Clue", "DropQuery", "CoreSet", "ProbCover", "GreedySamplingX",
+              "RegressionTreeBasedAL[random]", "RegressionTreeBasedAL[diversity]"}
+
+
+def seq_correspondence(ctx, spec, case, r, q, cs, ncols, lines, checks):
+    """Strategies with their own batch loop: match the captured rand_argmax calls to the returned picks and
+    hand rows + noise to the Lean `seqcheck` (picks recomputed by the model, mask discipline, NaN outside the
+    candidates).  The theorem `maskedSeq_valid` turns these decidable facts into distinctness / membership."""
+    calls = [c for c in r.get("ra_calls", []) if c["noise"] and len(c["noise"]) == 1 and c["a"].ndim == 1 and not c["kw"]]
+    if not calls or not q:
+        return
+    n_cand = len(cs)
+    cand_space = None
+    matched, qi = [], 0
+    for c in calls:
+        if qi >= len(q):
+            break
+        L = len(c["a"])
+        pick = int(np.asarray(c["out"]).ravel()[0])
+        if L == ncols and case["mode"] != "rows" and pick == q[qi]:
+            space = "X"
+        elif L == n_cand and pick < n_cand and int(cs[pick]) == q[qi] and case["mode"] != "rows":
+            space = "cand"
+        elif L == n_cand and case["mode"] == "rows" and pick == q[qi]:
+            space = "cand"
+        else:
+            continue
+        if cand_space is None:
+            cand_space = space
+        if space != cand_space:
+            continue
+        matched.append(c)
+        qi += 1
+    if qi != len(q):
+        ctx.count("seq_selection_not_via_rand_argmax")
+        return
+    if cand_space == "X":
+        cand_list = [int(i) for i in cs]
+        expect_picks = q
+    else:
+        cand_list = list(range(n_cand))
+        expect_picks = [int(np.asarray(c["out"]).ravel()[0]) for c in matched]
+    toks = ["seqcheck", il(cand_list), str(len(matched))]
+    for c in matched:
+        toks.append(fl(c["a"]))
+        toks.append(" ".join(f2bits(x) for x in np.asarray(c["noise"][0]).ravel()))
+    lines.append(" ".join(toks))
+    checks.append(("masked-sequential-selection", case, "picks " + " ".join(str(p) for p in expect_picks) + " | mask=1 outside=1"))
+    ctx.count("seq_correspondence")
+    ctx.count(f"seq_space_{cand_space}")
 
 
 def finish_lines(ctx, lines, checks):
